@@ -1,5 +1,160 @@
-import MptModel.Impl.Heap
-import MptModel.Spec.Vec
+/-
+  C04 — copy-on-write arrays behave as independent values.
+
+  Theorems about the implementation model `Impl/Heap.lean` (tied to mptcore/array/*.c by the
+  correspondence harness) and the vector spec `Spec/Vec.lean`.  All statements are for every state that
+  satisfies the heap invariant, every handle, every operand value and every history; nothing is bounded.
+
+  Scope: buffers without element callbacks (raw data and plain-old-data element types); the operations of
+  `Heap.Op`: append, insert, set, slice, cut, buffer-set, clone, drop, detach, reduce, reserve.  The operations
+  format-print and slice-write are stated (`*_statement`) but not proved; see the comments there.
+-/
+import MptModel.Lemmas.HeapHist
 namespace Mpt.C04
-theorem placeholder : True := trivial
+open Mpt Mpt.Heap
+
+/-! ### the heap invariant -/
+
+/-- the initial state (any number of empty handles) satisfies the invariant -/
+theorem inv_init (n : Nat) : Inv { hs := List.replicate n none, wins := List.replicate n none } := by
+  have hn : ∀ h b, ({ hs := List.replicate n none, wins := List.replicate n none } : State).handle h ≠ some b := by
+    intro h b e
+    have := State.handle_eq_some.mp e
+    simp [List.getElem?_replicate] at this
+  have bn : ∀ b x, ({ hs := List.replicate n none, wins := List.replicate n none } : State).buf? b ≠ some x := by
+    intro b x e
+    simp [State.buf?] at e
+  exact ⟨fun h b e => absurd e (hn h b), fun b x e => absurd e (bn b x), fun b x e => absurd e (bn b x),
+    fun b x e => absurd e (bn b x), fun b x e => absurd e (bn b x)⟩
+
+example : Inv { hs := List.replicate 3 none, wins := List.replicate 3 none } := inv_init 3
+
+/-- `Inv` (reference count = number of handles naming the buffer, no unreachable buffer, `used ≤ size`,
+    whole elements) is preserved by every operation, whether it succeeds or refuses, and no operation
+    leaves the buffer memory or touches a freed buffer (`fault`) -/
+theorem inv {s : State} (hinv : Inv s) (op : Op) (wf : op.wf s.hs.length) :
+    (∀ w, exec s op ≠ .fault w) ∧
+    (∀ s' v, exec s op = .ok s' v → Inv s' ∧ s'.hs.length = s.hs.length) ∧
+    (∀ s' e, exec s op = .fail s' e → Inv s' ∧ s'.hs.length = s.hs.length) := by
+  have sem := exec_sem hinv op wf
+  refine ⟨?_, ?_, ?_⟩
+  · intro w e; rw [e] at sem; exact sem
+  · intro s' v e; rw [e] at sem; exact ⟨sem.1, sem.2.1⟩
+  · intro s' e' e; rw [e] at sem; exact ⟨sem.1, sem.2.1⟩
+
+/-- value semantics: a successful operation through handle `h` makes `h` read exactly what the vector
+    spec says and leaves what every other handle reads unchanged — whatever buffers are shared -/
+theorem value_semantics {s s' : State} (hinv : Inv s) (op : Op) (wf : op.wf s.hs.length) (v : Unit)
+    (e : exec s op = .ok s' v) :
+    specRel s op (s.abs op.handle) (s'.abs op.handle) ∧ ∀ h', h' ≠ op.handle → s'.abs h' = s.abs h' := by
+  have sem := exec_sem hinv op wf
+  rw [e] at sem
+  exact ⟨sem.2.2.1, sem.2.2.2⟩
+
+/-- refusal: a refused operation changes what no handle reads; and when the arguments fall outside the data
+    (the spec relates the current value to no result) the operation is refused -/
+theorem refusal {s : State} (hinv : Inv s) (op : Op) (wf : op.wf s.hs.length) :
+    (∀ s' e, exec s op = .fail s' e → ∀ h', s'.abs h' = s.abs h') ∧
+    ((∀ v', ¬ specRel s op (s.abs op.handle) v') → ∃ s' e, exec s op = .fail s' e) := by
+  have sem := exec_sem hinv op wf
+  refine ⟨?_, ?_⟩
+  · intro s' e' e; rw [e] at sem; exact sem.2.2
+  · intro none
+    cases e : exec s op with
+    | fault w => rw [e] at sem; exact absurd sem id
+    | fail s' e' => exact ⟨s', e', rfl⟩
+    | ok s' v => rw [e] at sem; exact absurd sem.2.2.1 (none _)
+
+/-- a cut beyond the data and an assignment before the start are such out-of-range arguments -/
+theorem refusal_cut_set {s : State} (hinv : Inv s) :
+    (∀ h off len, h < s.hs.length → (s.abs h).length < off + len → ∃ s' e, exec s (.cut h off len) = .fail s' e) ∧
+    (∀ h t off bytes hasSrc, h < s.hs.length → PlainT (some t) →
+      Int.ofNat (s.abs h).length + off * Int.ofNat t.size < 0 → ∃ s' e, exec s (.set h t off bytes hasSrc) = .fail s' e) := by
+  refine ⟨?_, ?_⟩
+  · intro h off len hlt big
+    apply (refusal hinv (.cut h off len) hlt).2
+    intro v' hv
+    have hv' : Vec.cut (s.abs h) off len = some v' := hv
+    unfold Vec.cut at hv'
+    by_cases l0 : len = 0
+    · subst l0
+      rw [if_pos rfl, if_neg (by omega)] at hv'
+      cases hv'
+    · rw [if_neg l0, if_neg (by omega)] at hv'
+      cases hv'
+  · intro h t off bytes hasSrc hlt pt neg
+    apply (refusal hinv (.set h t off bytes hasSrc) ⟨hlt, pt⟩).2
+    intro v' hv
+    have hv' : Vec.setAt (s.abs h) t.size off bytes = some v' := hv
+    unfold Vec.setAt at hv'
+    have offneg : off < 0 := by
+      rcases Int.lt_or_le off 0 with l | g
+      · exact l
+      · have : 0 ≤ off * Int.ofNat t.size := Int.mul_nonneg g (Int.natCast_nonneg _)
+        have : (0 : Int) ≤ Int.ofNat (s.abs h).length := Int.natCast_nonneg _
+        omega
+    simp only [offneg, if_true] at hv'
+    rw [if_pos neg] at hv'
+    cases hv'
+
+/-- every history of operations over any number of handles: no fault, the invariant holds at the end, and
+    the values read through the handles evolve step by step as the vector spec allows (each operation
+    either changes nothing — refusal — or rewrites the value of its own handle only) -/
+theorem history {s : State} (hinv : Inv s) (ops : List Op) (wf : ∀ op ∈ ops, op.wf s.hs.length) :
+    ∃ s', run s ops = some s' ∧ Inv s' ∧ s'.hs.length = s.hs.length ∧ Explained s ops s' := by
+  induction ops generalizing s with
+  | nil => exact ⟨s, rfl, hinv, rfl, .nil s⟩
+  | cons op rest ih =>
+    have wop := wf op (List.mem_cons_self)
+    have sem := exec_sem hinv op wop
+    have hlt := Op.handle_lt wop
+    unfold run
+    cases e : exec s op with
+    | fault w => rw [e] at sem; exact absurd sem id
+    | fail s1 e1 =>
+      rw [e] at sem
+      simp only
+      obtain ⟨s2, r2, i2, l2, x2⟩ := ih sem.1 (by intro o ho; rw [sem.2.1]; exact wf o (List.mem_cons_of_mem _ ho))
+      refine ⟨s2, r2, i2, by rw [l2, sem.2.1], .cons ?_ x2⟩
+      exact Or.inl (absAll_same sem.2.1 sem.2.2)
+    | ok s1 v1 =>
+      rw [e] at sem
+      simp only
+      obtain ⟨s2, r2, i2, l2, x2⟩ := ih sem.1 (by intro o ho; rw [sem.2.1]; exact wf o (List.mem_cons_of_mem _ ho))
+      refine ⟨s2, r2, i2, by rw [l2, sem.2.1], .cons ?_ x2⟩
+      refine Or.inr ⟨s1.abs op.handle, ?_, absAll_set op.handle sem.2.1 hlt sem.2.2.2⟩
+      rw [absAll_getD s op.handle hlt]
+      exact sem.2.2.1
+
+/-- instance: `b = a; append(a, "de")` on shared data — `a` reads the appended value, `b` the old one -/
+example : ∃ s', run { hs := [none, none], wins := [none, none] }
+      [.append 0 [0x61, 0x62, 0x63], .clone 1 0, .append 0 [0x64, 0x65]] = some s' ∧
+    s'.abs 0 = [0x61, 0x62, 0x63, 0x64, 0x65] ∧ s'.abs 1 = [0x61, 0x62, 0x63] := by
+  refine ⟨_, rfl, ?_, ?_⟩ <;> decide
+
+/-! ### operations not covered by a theorem (correspondence-checked only)
+
+  The full statements are kept as definitions.  What is missing: the proofs.  `arrayPrintf` runs two
+  `arraySlice` calls with a length computed from the free space, `sliceWrite` has three paths (in place,
+  move to front, fresh buffer) on a window of the buffer.  Both are exercised against the real code by
+  the harness (streams 1-3 of vlib/props/c04.py) and the same `Sem` shape is what the harness checks. -/
+
+/-- format-print: the text (no zero byte) is appended, lengths exact -/
+def printf_statement : Prop :=
+  ∀ (s : State) (h : Nat) (ct : Traits) (text : List Byte), Inv s → h < s.hs.length → PlainT (some ct) → ct.size = 1 →
+    (∀ b ∈ text, b ≠ 0) →
+    Sem s h (fun v v' => v' = Vec.append v text) (arrayPrintf s h ct text)
+
+/-- slice-write: whole blocks are appended to the window of the slice handle; every array handle keeps its
+    value (the window is `s.wins[h]` on the buffer of `h`) -/
+def slice_write_statement : Prop :=
+  ∀ (s : State) (h nblk esz : Nat) (bytes : List Byte) (w : Win), Inv s → h < s.hs.length → esz ≠ 0 →
+    bytes.length = nblk * esz → s.win h = some w → w.off + w.len ≤ (s.abs h).length →
+    match sliceWrite s h nblk esz bytes with
+    | .fault _ => False
+    | .fail s' _ => Inv s' ∧ ∀ h', h' ≠ h → s'.abs h' = s.abs h'
+    | .ok s' k => Inv s' ∧ k ≤ nblk ∧ (∀ h', h' ≠ h → s'.abs h' = s.abs h') ∧
+        ∃ w', s'.win h = some w' ∧
+          Vec.sub (s'.abs h) w'.off w'.len = Vec.sub (s.abs h) w.off w.len ++ Vec.blocks bytes k esz
+
 end Mpt.C04
